@@ -97,6 +97,94 @@ impl Translator<DK> for Ident {
     fn hash160(&mut self, h: &<DK as miniscript::MiniscriptKey>::Hash160) -> Result<<DK as miniscript::MiniscriptKey>::Hash160, ()> { Ok(*h) }
 }
 
+/// Maps every key through `map` (text -> text); fails on `fail_on`.
+struct Mapper<'a> {
+    map: &'a dyn Fn(&str) -> String,
+    fail_on: Option<String>,
+}
+impl<'a> Translator<DK> for Mapper<'a> {
+    type TargetPk = DK;
+    type Error = ();
+    fn pk(&mut self, pk: &DK) -> Result<DK, ()> {
+        let t = pk.to_string();
+        if self.fail_on.as_deref() == Some(&t[..]) {
+            return Err(());
+        }
+        DK::from_str(&(self.map)(&t)).map_err(|_| ())
+    }
+    fn sha256(&mut self, h: &<DK as miniscript::MiniscriptKey>::Sha256) -> Result<<DK as miniscript::MiniscriptKey>::Sha256, ()> { Ok(*h) }
+    fn hash256(&mut self, h: &<DK as miniscript::MiniscriptKey>::Hash256) -> Result<<DK as miniscript::MiniscriptKey>::Hash256, ()> { Ok(*h) }
+    fn ripemd160(&mut self, h: &<DK as miniscript::MiniscriptKey>::Ripemd160) -> Result<<DK as miniscript::MiniscriptKey>::Ripemd160, ()> { Ok(*h) }
+    fn hash160(&mut self, h: &<DK as miniscript::MiniscriptKey>::Hash160) -> Result<<DK as miniscript::MiniscriptKey>::Hash160, ()> { Ok(*h) }
+}
+
+/// Print the tree with the `at`-th branch (pre-order) malformed: 0 = a third child, 1 = a single
+/// child, 2 = a trailing comma.
+fn print_malformed(t: &MTree, at: usize, kind: usize, extra: &str, counter: &mut usize) -> String {
+    match t {
+        MTree::Leaf(n) => ast::print(n, true),
+        MTree::Branch(a, b2) => {
+            let me = *counter;
+            *counter += 1;
+            let l = print_malformed(a, at, kind, extra, counter);
+            let r = print_malformed(b2, at, kind, extra, counter);
+            if me != at {
+                format!("{{{},{}}}", l, r)
+            } else {
+                match kind {
+                    0 => format!("{{{},{},{}}}", l, r, extra),
+                    1 => format!("{{{}}}", l),
+                    2 => format!("{{{},{},}}", l, r),
+                    _ => format!("{{{},{{{}}}}}", l, r),
+                }
+            }
+        }
+    }
+}
+
+fn n_branches(t: &MTree) -> usize {
+    match t {
+        MTree::Leaf(_) => 0,
+        MTree::Branch(a, b2) => 1 + n_branches(a) + n_branches(b2),
+    }
+}
+
+/// Invariants of C15 that need no model: whatever `Tr` value the library hands out, its leaf list
+/// and its spend info agree and every control block proves its leaf against the output key.
+fn check_self(tr: &Tr<DK>, how: &str) -> Result<(), Failure> {
+    let spk = tr.script_pubkey();
+    let sb = spk.as_bytes();
+    if sb.len() != 34 || sb[0] != 0x51 || sb[1] != 32 {
+        return fail(&format!("self-spk/{}", how), "scriptPubKey is not a v1 program".to_string());
+    }
+    let mut q = [0u8; 32];
+    q.copy_from_slice(&sb[2..]);
+    let a: Vec<(usize, Vec<u8>)> = tr.leaves().map(|l| (l.depth() as usize, l.compute_script().into_bytes())).collect();
+    let si = tr.spend_info();
+    let b2: Vec<(usize, Vec<u8>)> = si.leaves().map(|l| (usize::from(l.depth()), l.script().as_bytes().to_vec())).collect();
+    if a != b2 {
+        return fail(&format!("self-leaves-vs-spend-info/{}", how), format!("Tr::leaves() depths {:?} but spend_info depths {:?}", a.iter().map(|x| x.0).collect::<Vec<_>>(), b2.iter().map(|x| x.0).collect::<Vec<_>>()));
+    }
+    for (i, item) in si.leaves().enumerate() {
+        let cb = item.control_block().serialize();
+        let lh = bip341::tapleaf_hash(0xc0, item.script().as_bytes());
+        if !bip341::verify_commitment(&cb, &q, &lh) {
+            return fail(&format!("self-control-block/{}", how), format!("control block of leaf #{} does not prove the leaf against the output key", i + 1));
+        }
+    }
+    // Kraft equality: the depths describe a full binary tree
+    if !a.is_empty() {
+        let mut sum = 0f64;
+        for (d, _) in &a {
+            sum += (0.5f64).powi(*d as i32);
+        }
+        if a.iter().all(|x| x.0 <= 50) && (sum - 1.0).abs() > 1e-12 {
+            return fail(&format!("self-not-a-binary-tree/{}", how), format!("leaf depths {:?} do not form a binary tree", a.iter().map(|x| x.0).collect::<Vec<_>>()));
+        }
+    }
+    Ok(())
+}
+
 fn check_tr(tr: &Tr<DK>, ik32: &[u8; 32], model: &bip341::Tree, how: &str) -> Result<(), Failure> {
     let leaves = model.leaves();
     let root = model.root();
@@ -334,6 +422,65 @@ impl C15 {
             Ok(Descriptor::Tr(t3)) => check_tr(&t3, &ik32, &model, "print-parse")?,
             _ => return fail("print-parse-rejected", format!("printed form does not re-parse: {}", printed)),
         }
+        // a key-changing translation: every x-only test key i -> key (i + shift) % 12
+        {
+            let shift = src.range(1, 11);
+            let table: Vec<(String, String)> = (0..12).map(|i| (keys::key_xonly(i), keys::key_xonly((i + shift) % 12))).collect();
+            let mapf = move |k: &str| -> String { table.iter().find(|(a, _)| a == k).map(|(_, b2)| b2.clone()).unwrap_or_else(|| k.to_string()) };
+            let md2 = md.map_keys(&mut |k| mapf(k));
+            if let MDesc::Tr(ik2, Some(t2)) = &md2 {
+                let ikb2 = key_bytes(ik2, Ctx::Tap).map_err(|e| Failure { sig: "key".into(), msg: e })?;
+                let mut ik32b = [0u8; 32];
+                ik32b.copy_from_slice(&ikb2);
+                let model2 = t2.to_model().map_err(|e| Failure { sig: "mirror-encode".into(), msg: e })?;
+                let tr_m: Tr<DK> = tr.translate_pk(&mut Mapper { map: &mapf, fail_on: None }).map_err(|_| Failure { sig: "translate-map".into(), msg: "key-mapping translation failed".into() })?;
+                check_tr(&tr_m, &ik32b, &model2, "translate-map")?;
+                rep.class("translate-map".to_string());
+            }
+            // a translation that fails on a key occurring in one leaf only: the result may not be a
+            // descriptor that silently lost leaves
+            let leaves = t.leaves();
+            let li = src.below(leaves.len());
+            let lkeys = leaves[li].1.keys();
+            if !lkeys.is_empty() {
+                let target = lkeys[src.below(lkeys.len())].clone();
+                if target != ik {
+                    let idf = |k: &str| k.to_string();
+                    match tr.translate_pk(&mut Mapper { map: &idf, fail_on: Some(target.clone()) }) {
+                        Err(_) => rep.class("translate-fails-in-leaf:err".to_string()),
+                        Ok(t2) => {
+                            let t2: Tr<DK> = t2;
+                            let n2 = t2.leaves().count();
+                            if n2 != leaves.len() {
+                                return fail("translate-error-swallowed", format!("a translator failing on a key of leaf #{} got Ok with {} of {} leaves", li + 1, n2, leaves.len()));
+                            }
+                        }
+                    }
+                }
+            }
+        }
+        // malformed tree text (non-binary branch): rejected, or whatever value comes back is self-consistent
+        if n_branches(&t) > 0 {
+            let at = src.below(n_branches(&t));
+            let kind = src.below(4);
+            let extra = ast::print(&leaf_node(src.below(40), false), true);
+            let mut c = 0;
+            let bad = format!("tr({},{})", ik, print_malformed(&t, at, kind, &extra, &mut c));
+            match Descriptor::<DK>::from_str(&bad) {
+                Err(_) => rep.class("malformed-branch:rejected".to_string()),
+                Ok(Descriptor::Tr(tb)) => {
+                    rep.class("malformed-branch:accepted".to_string());
+                    check_self(&tb, "malformed-branch")?;
+                    let again = Descriptor::Tr(tb.clone()).to_string();
+                    match Descriptor::<DK>::from_str(&again) {
+                        Ok(d2) if d2 == Descriptor::Tr(tb) => {}
+                        _ => return fail("malformed-branch/print-parse", format!("`{}` parses but its printed form `{}` does not parse back to it", bad, again)),
+                    }
+                }
+                Ok(_) => return fail("not-tr", "parsed to a non-tr descriptor".to_string()),
+            }
+        }
+        check_self(&tr, "ctor")?;
         // mirror of the library value equals the mirror tree
         let back = crate::glue::mdesc_from_lib(&Descriptor::Tr(parsed)).map_err(|e| Failure { sig: "mdesc".into(), msg: e })?;
         if back != md {
